@@ -124,7 +124,9 @@ String TextFile::text()
 {
 	int n = (int)(size() & 0x7fffffff); // truncate
 	String text;
-	if (!_file && !open(READ)) {
+	if (_file)
+		seek(0); // already open: the text starts at the beginning of the file
+	else if (!open(READ)) {
 		return text;
 	}
 	byte head[8];
